@@ -220,6 +220,11 @@ func runC18(c *Ctx) {
 	c.c18RunsDoNotOverlap()
 	c.c18PiecesAreTheBytesWritten()
 	c.c18CallersLoggersAreLeftOpen()
+	// M17: "otherwise an error (of context kind if it was cancelled)": Execute reports the end of its context through
+	// parallelisation.DetermineContextError — which reads ctx.Err(), not context.Cause (the obligation C12/T7 = C14/O10 =
+	// C09/A19, evaluated here for the packages Execute's verdict goes through).
+	c.rule("M17", "the end of the command's context is read through ctx.Err() (converted to 'cancelled' / 'timeout'): context.Cause is not used in packages subprocess, parallelisation or commonerrors", 0)
+	c.noContextCause("M17", []string{spPkg, "parallelisation", "commonerrors"})
 	c.rule("M14", "every one-line forwarder of package subprocess (Setup…, Execute…, Output…, New… variants) hands each of its parameters to the call it forwards to, exactly once: the messages, the environment and the user reach the command whichever variant is called", 15)
 	c.forwardersKeepTheirArguments("M14", []string{spPkg}, nil,
 		"called through that variant the subprocess is described with another argument in its place — the failure message replaced by the success message: a child that fails is reported with the text for success, and the failure text is never logged")
